@@ -457,7 +457,7 @@ PROP = Property(
           "missing-field branch; distinct = distinct branch sets."),
     strategy=strategy,
     run_case=run_case,
-    budgets={"quick": 16000, "thorough": 400000},
+    budgets={"quick": 16000, "thorough": 150000},
     calibrate=calibrate,
     extra_tiers=[("live-copy", live_copy_tier)],
     assumptions=[
